@@ -266,12 +266,12 @@ class CFormatter(Formatter):
     ) -> str:
         message_name = self.format_message_name(d.message)
         prefix = self.bp_processor_name_prefix()
-        return f"{prefix}Array{message_name}_{d.number}"
+        return f"{prefix}Array_{message_name}_{d.number}"
 
     def format_bp_array_processor_name_from_alias(self, t: Array, d: Alias) -> str:
         alias_name = self.format_alias_name(d)
         prefix = self.bp_processor_name_prefix()
-        return f"{prefix}Array{alias_name}"
+        return f"{prefix}Array_{alias_name}"
 
     def format_bp_message_field_descriptor_initer(self, t: Message) -> str:
         message_name = self.format_message_name(t)
@@ -301,12 +301,12 @@ class CFormatter(Formatter):
     ) -> str:
         message_name = self.format_message_name(d.message)
         prefix = self.bp_json_formatter_name_prefix()
-        return f"{prefix}Array{message_name}_{d.number}"
+        return f"{prefix}Array_{message_name}_{d.number}"
 
     def format_bp_array_json_formatter_name_from_alias(self, t: Array, d: Alias) -> str:
         alias_name = self.format_alias_name(d)
         prefix = self.bp_json_formatter_name_prefix()
-        return f"{prefix}Array{alias_name}"
+        return f"{prefix}Array_{alias_name}"
 
     ###################
     # Optimization Mode.
